@@ -18,6 +18,7 @@ CLAUSE = ('every ownership diagnostic of the borrow-check passes is emitted only
 TRUSTED = ['CopyChecker / get_clone_component_id answer correctly', 'petgraph traversals visit every reachable node']
 
 BC = PX + 'analyses::call_graph::borrow_checker::'
+CONS = PX + 'analyses::constructibles::'
 IS_COPY = BC + 'copy::CopyChecker::is_copy'
 GET_CLONE = BC + 'clone::get_clone_component_id'
 
@@ -252,6 +253,38 @@ def r8_exemptions_at_every_level(ctx):
                '%s decides a skip inside the %s-loop of %s: %s (%s)' % (pred.split('::')[-1], '/'.join(head_kinds), fn.split('::')[-1], found, why))
 
 
+def r9_bound_constructor_brings_its_matchers(ctx):
+    ctx.rule('C02.R9', 'P7/P1: when a generic constructor is specialised on demand (ConstructiblesInScope::bind_and_register_constructor, and any '
+             'helper it is split into), the components derived from the bound constructor (ComponentDb::derived_component_ids: the Ok-matcher of '
+             'a fallible constructor) are registered in the same scope, in a loop over that list: otherwise `fn parse<T>() -> Result<Json<T>, E>` '
+             'can be bound but `Json<Order>` stays unconstructible and the compiler aborts on its own assertion.')
+    fn = CONS + 'ConstructiblesInScope::bind_and_register_constructor'
+    bodies = ctx.fb.bodies_of_item('pavexc', fn)
+    if not ctx.need('C02.R9', 'ConstructiblesInScope::bind_and_register_constructor', bodies):
+        return
+    b = bodies[0]
+    defs = Defs(b)
+    bind = [(bb, t) for bb, t in b.calls() if (callee(t) or '').endswith('ComponentDb::bind_generic_type_parameters')]
+    der = [(bb, t) for bb, t in b.calls() if (callee(t) or '').endswith('ComponentDb::derived_component_ids')]
+    ok, how = False, 'derived_component_ids is not consulted'
+    if bind and der:
+        dbb, dt = der[0]
+        pl = op_place(dt['args'][1]) if len(dt['args']) > 1 else None
+        _, locs = backward_slice(b, pl['l'], defs) if pl else ([], set())
+        from_bound = bind[0][1]['dest']['l'] in (locs | ({pl['l']} if pl else set()))
+        heads = [(hb, ht) for hb, ht in b.calls() if (callee(ht) or '').split('::')[-1] == 'next' and hb in b.reachable(b.succ(hb))]
+        looped = False
+        for hb, ht in heads:
+            rp = op_place(ht['args'][0])
+            sl, _ = backward_slice(b, rp['l'], defs) if rp else ([], set())
+            if any(c.endswith('ComponentDb::derived_component_ids') for c, _, _ in slice_calls(sl)):
+                body_blocks = b.reachable(b.succ(hb), avoid=[hb])
+                looped = any(bb2 in body_blocks and ((callee(t2) or '').split('::')[-1] == 'insert') for bb2, t2 in b.calls())
+        ok = from_bound and looped
+        how = 'derived_component_ids(bound constructor): %s; every derived id is inserted in a loop over it: %s' % (from_bound, looped)
+    ctx.ob('C02.R9', 'derived-components-registered', ok, b.loc(der[0][0]) if der else b.loc(), how)
+
+
 def check(ctx):
     r1_exemptions_first(ctx)
     r2_control_flow_test(ctx)
@@ -261,3 +294,4 @@ def check(ctx):
     r6_derived_cloning_policy(ctx)
     r7_types_keyed_by_identity(ctx)
     r8_exemptions_at_every_level(ctx)
+    r9_bound_constructor_brings_its_matchers(ctx)
